@@ -155,6 +155,17 @@ func init() {
 				// 0.5 matters: x*0.5 lands exactly on half a unit of the 18th digit for odd x (round-half-even paths)
 				SlashVals: []int{0, 1}, SlashF: []string{"0.333333333333333333", "0.5", "0.99"},
 				BlockDts: dts(1, 3, 7),
+				// a redelegation that names ONE validator as source and destination, the source spelled in upper case (bech32 is
+				// case-insensitive): it must be refused like the lower-case spelling, or two copies of one record are written
+				Extra: func(n *engine.Node) []world.Op {
+					var ops []world.Op
+					for _, v := range []int{0, 1} {
+						if _, ok := n.Snap().FindPos(0, v, "aaa"); ok {
+							ops = append(ops, world.Op{K: world.KRedelegate, D: 0, V: v, V2: v, Denom: "aaa", Amt: "1", Class: ClsUser, Args: map[string]string{"src_case": "upper"}})
+						}
+					}
+					return ops
+				},
 			}
 			mag := Alpha{
 				Dels: []int{0, 1}, Vals: []int{0, 1}, Denoms: []string{"aaa"},
